@@ -229,3 +229,227 @@ func extractC04KeysAndJti(l *lean, akF, mw *ast.File) {
 	}
 	l.def("uuidModuleVersion", "String", fmt.Sprintf("%q", ver), ver)
 }
+
+// ---------------- configuration plumbing: http/config.go koanf tags, http/cmd FlagSet, core config load order and env constants
+func c04TagPaths(f *ast.File, typ string, prefix string, goPrefix string, out *[][2]string) {
+	for _, d := range f.Decls {
+		gd, ok := d.(*ast.GenDecl)
+		if !ok || gd.Tok != token.TYPE {
+			continue
+		}
+		for _, sp := range gd.Specs {
+			ts := sp.(*ast.TypeSpec)
+			st, ok := ts.Type.(*ast.StructType)
+			if !ok || ts.Name.Name != typ {
+				continue
+			}
+			for _, fl := range st.Fields.List {
+				tag := ""
+				if fl.Tag != nil {
+					if s, err := strconv.Unquote(fl.Tag.Value); err == nil {
+						if m := regexp.MustCompile(`koanf:"([^"]*)"`).FindStringSubmatch(s); m != nil {
+							tag = m[1]
+						}
+					}
+				}
+				for _, n := range fl.Names {
+					ft := exprString(fl.Type)
+					isStruct := false
+					for _, d2 := range f.Decls {
+						if g2, ok := d2.(*ast.GenDecl); ok && g2.Tok == token.TYPE {
+							for _, s2 := range g2.Specs {
+								if t2 := s2.(*ast.TypeSpec); t2.Name.Name == ft {
+									_, isStruct = t2.Type.(*ast.StructType)
+								}
+							}
+						}
+					}
+					if isStruct {
+						c04TagPaths(f, ft, prefix+tag+".", goPrefix+n.Name+".", out)
+					} else {
+						*out = append(*out, [2]string{prefix + tag, goPrefix + n.Name})
+					}
+				}
+			}
+		}
+	}
+}
+
+func extractC04Config(l *lean) {
+	_, cf := parseFile("http/config.go")
+	var tags [][2]string
+	c04TagPaths(cf, "Config", "", "", &tags)
+	var rows []string
+	raw := map[string]string{}
+	for _, t := range tags {
+		rows = append(rows, fmt.Sprintf("(%q, %q)", t[0], t[1]))
+		raw[t[0]] = t[1]
+	}
+	l.def("httpConfigTags", "List (String × String)", "["+strings.Join(rows, ", ")+"]", raw)
+
+	// DefaultConfig(): literal values of the string fields
+	defs := map[string]string{}
+	if fd := funcDecl(cf, "DefaultConfig"); fd != nil {
+		var walk func(prefix string, cl *ast.CompositeLit)
+		walk = func(prefix string, cl *ast.CompositeLit) {
+			for _, el := range cl.Elts {
+				kv, ok := el.(*ast.KeyValueExpr)
+				if !ok {
+					continue
+				}
+				name := prefix + exprString(kv.Key)
+				if sub, ok := kv.Value.(*ast.CompositeLit); ok {
+					walk(name+".", sub)
+				} else if s, ok := c04StrLit(kv.Value); ok {
+					defs[name] = s
+				} else {
+					defs[name] = "=" + c04Flat(kv.Value)
+				}
+			}
+		}
+		ast.Inspect(fd, func(n ast.Node) bool {
+			if r, ok := n.(*ast.ReturnStmt); ok && len(r.Results) == 1 {
+				if cl, ok := r.Results[0].(*ast.CompositeLit); ok {
+					walk("", cl)
+				}
+			}
+			return true
+		})
+	}
+	// constants of config.go (LogMetadataLevel …)
+	consts := map[string]string{}
+	for _, d := range cf.Decls {
+		if gd, ok := d.(*ast.GenDecl); ok && gd.Tok == token.CONST {
+			for _, sp := range gd.Specs {
+				vs := sp.(*ast.ValueSpec)
+				for i, n := range vs.Names {
+					if i < len(vs.Values) {
+						if s, ok := c04StrLit(vs.Values[i]); ok {
+							consts[n.Name] = s
+						}
+					}
+				}
+			}
+		}
+	}
+
+	// http/cmd FlagSet: flag name, kind, the DefaultConfig field its default comes from
+	_, cmdF := parseFile("http/cmd/cmd.go")
+	var frows []string
+	var fraw [][3]string
+	if fd := funcDecl(cmdF, "FlagSet"); fd != nil {
+		ast.Inspect(fd, func(n ast.Node) bool {
+			c, ok := n.(*ast.CallExpr)
+			if !ok || len(c.Args) < 2 {
+				return true
+			}
+			f := exprString(c.Fun)
+			if !strings.HasPrefix(f, "flags.") {
+				return true
+			}
+			name, ok := c04StrLit(c.Args[0])
+			if !ok {
+				frows = append(frows, "unknown_flag_name")
+				return true
+			}
+			src := c04Flat(c.Args[1])
+			src = strings.TrimSuffix(strings.TrimPrefix(src, "string("), ")")
+			field := strings.TrimPrefix(src, "defs.")
+			def, known := defs[field]
+			if !known { // zero value of a field DefaultConfig() does not set
+				def = ""
+			}
+			if strings.HasPrefix(def, "=") {
+				if v, ok := consts[def[1:]]; ok {
+					def = v
+				}
+			}
+			frows = append(frows, fmt.Sprintf("(%q, %q, %q)", name, strings.TrimPrefix(f, "flags."), def))
+			fraw = append(fraw, [3]string{name, field, def})
+			return true
+		})
+	}
+	l.def("httpFlags", "List (String × String × String)", "["+strings.Join(frows, ",\n    ")+"]", fraw)
+
+	// core: env constants and the load order
+	_, sc := parseFile("core/server_config.go")
+	cc := map[string]string{}
+	for _, d := range sc.Decls {
+		if gd, ok := d.(*ast.GenDecl); ok && gd.Tok == token.CONST {
+			for _, sp := range gd.Specs {
+				vs := sp.(*ast.ValueSpec)
+				for i, n := range vs.Names {
+					if i < len(vs.Values) {
+						if s, ok := c04StrLit(vs.Values[i]); ok {
+							cc[n.Name] = s
+						}
+					}
+				}
+			}
+		}
+	}
+	for _, k := range []string{"defaultEnvPrefix", "defaultEnvDelimiter", "defaultDelimiter", "configValueListSeparator"} {
+		v, ok := cc[k]
+		if !ok {
+			v = "MISSING"
+		}
+		l.def("core_"+k, "String", fmt.Sprintf("%q", v), v)
+	}
+	var order []string
+	if fd := funcDecl(sc, "loadConfigMap"); fd != nil {
+		ast.Inspect(fd, func(n ast.Node) bool {
+			if c, ok := n.(*ast.CallExpr); ok {
+				if f := exprString(c.Fun); strings.HasPrefix(f, "loadFrom") {
+					order = append(order, f)
+				}
+			}
+			return true
+		})
+	}
+	l.def("configLoadOrder", "List String", leanStrList(order), order)
+	_, ccf := parseFile("core/config.go")
+	envKey, flagLoad := "MISSING", "MISSING"
+	if fd := funcDecl(ccf, "loadFromEnv"); fd != nil {
+		ast.Inspect(fd, func(n ast.Node) bool {
+			if as, ok := n.(*ast.AssignStmt); ok && len(as.Lhs) == 1 && exprString(as.Lhs[0]) == "key" {
+				envKey = c04Flat(as.Rhs[0])
+			}
+			return true
+		})
+	}
+	if fd := funcDecl(ccf, "loadFromFlagSet"); fd != nil {
+		if n := len(fd.Body.List); n > 0 {
+			flagLoad = c04Flat(fd.Body.List[n-1])
+		}
+	}
+	l.def("envKeyExpr", "String", fmt.Sprintf("%q", envKey), envKey)
+	l.def("flagLoadStmt", "String", fmt.Sprintf("%q", flagLoad), flagLoad)
+	split := "MISSING"
+	if fd := funcDecl(ccf, "splitWithEscaping"); fd != nil {
+		split = c04Flat(fd.Body)
+	}
+	l.def("splitWithEscapingBody", "String", fmt.Sprintf("%q", split), split)
+	inj := "MISSING"
+	if fd := funcDecl(sc, "InjectIntoEngine"); fd != nil {
+		inj = c04Flat(fd.Body)
+	}
+	l.def("injectBody", "String", fmt.Sprintf("%q", inj), inj)
+	// http engine module name (the config sub-tree is its lower-cased form)
+	_, eng := parseFile("http/engine.go")
+	mn := "MISSING"
+	for _, d := range eng.Decls {
+		if gd, ok := d.(*ast.GenDecl); ok && gd.Tok == token.CONST {
+			for _, sp := range gd.Specs {
+				vs := sp.(*ast.ValueSpec)
+				for i, n := range vs.Names {
+					if n.Name == "moduleName" && i < len(vs.Values) {
+						if s, ok := c04StrLit(vs.Values[i]); ok {
+							mn = s
+						}
+					}
+				}
+			}
+		}
+	}
+	l.def("httpModuleName", "String", fmt.Sprintf("%q", mn), mn)
+}
